@@ -492,6 +492,317 @@ fn run_queries(
     Ok(())
 }
 
+// ---------------------------------------------------------------------------------------------
+// G4: multi-step use of ONE reader. Every answer must be what it would be on a fresh reader.
+
+#[derive(Clone, Copy, Debug, PartialEq)]
+enum Step {
+    /// region query, answer read to the end
+    Q(usize, usize, usize),
+    /// region query of which only the first record is taken, then the iterator is dropped
+    QTakeOne(usize, usize, usize),
+    Whole(usize),
+    Unmapped,
+    /// sequential `records()` to the end of the file
+    Scan,
+    /// sequential `records()`, two records taken, then dropped
+    ScanTwo,
+}
+
+impl Step {
+    fn kind(&self) -> &'static str {
+        match self {
+            Step::Q(..) => "query",
+            Step::QTakeOne(..) => "query-take-one",
+            Step::Whole(_) => "query-whole-reference",
+            Step::Unmapped => "query_unmapped",
+            Step::Scan => "sequential-scan",
+            Step::ScanTwo => "sequential-two-records",
+        }
+    }
+}
+
+const STEPS: [Step; 9] = [
+    Step::Q(0, 1, 12),
+    Step::Q(0, 25, 60),
+    Step::Whole(0),
+    Step::Q(0, 62, 69),
+    Step::Whole(1),
+    Step::QTakeOne(0, 20, 60),
+    Step::Unmapped,
+    Step::Scan,
+    Step::ScanTwo,
+];
+
+/// Order-preserving comparison of a query answer with filter(scan).
+fn judge_region(scan: &[Rec], rid: usize, a: usize, b: usize, got: &[Rec], only_first: bool) -> Result<(), (String, String)> {
+    let must: Vec<usize> = (0..scan.len()).filter(|&k| want(&scan[k], rid, a, b) == Want::Must).collect();
+    let mut cursor = 0usize;
+    let mut matched = vec![false; scan.len()];
+    for g in got {
+        let found = (cursor..scan.len()).find(|&k| &scan[k] == g);
+        match found {
+            Some(k) => {
+                if want(&scan[k], rid, a, b) == Want::No {
+                    let why = if scan[k].rid != Some(rid) { "record-of-another-reference" } else { "record-outside-region" };
+                    return Err((format!("extra:{why}"), format!("record {k} of the scan")));
+                }
+                matched[k] = true;
+                cursor = k + 1;
+            }
+            None => {
+                let dup = scan.iter().any(|s| s == g);
+                return Err(((if dup { "duplicate-or-out-of-order" } else { "record-not-in-scan" }).to_string(), format!("{:?}", g.name.as_ref().map(|n| String::from_utf8_lossy(n).into_owned()))));
+            }
+        }
+    }
+    if only_first {
+        // the one record taken must be the first the filter keeps (or a `May` record before it)
+        if got.is_empty() && !must.is_empty() {
+            return Err(("missing-record".into(), format!("first of {} expected records", must.len())));
+        }
+        if let (Some(&first_must), Some(k)) = (must.first(), matched.iter().position(|m| *m)) {
+            if k > first_must {
+                return Err(("missing-record".into(), format!("record {first_must} of the scan skipped")));
+            }
+        }
+        return Ok(());
+    }
+    for k in must {
+        if !matched[k] {
+            return Err(("missing-record".into(), format!("record {k} of the scan")));
+        }
+    }
+    Ok(())
+}
+
+fn body_sequences(ch: &Chooser, env: &Env, streams: &[usize]) -> Outcome {
+    let which = *ch.pick_free("stream", streams);
+    let layout = *ch.pick_free("layout", &LAYOUTS);
+    let indexed = *ch.pick_free("reader", &[true, false]);
+    let mut steps: Vec<Step> = Vec::new();
+    steps.push(*ch.pick_free("step1", &STEPS));
+    steps.push(*ch.pick_free("step2", &STEPS));
+    let third = ch.free("step3", STEPS.len() + 1);
+    if third > 0 {
+        steps.push(STEPS[third - 1]);
+    }
+    let st = stream::finalise(stream::base_stream(which), &env.refs);
+    let recs = &st.recs;
+    let names: Vec<&str> = env.refs.iter().map(|r| r.name).collect();
+    let cfg = WriteCfg { records_per_slice: layout, ..Default::default() };
+    let describe = || {
+        format!(
+            "one {} ; steps {:?} ; stream={} {} records: {}",
+            if indexed { "IndexedReader" } else { "Reader (+ index passed to query)" },
+            steps,
+            BASE_STREAMS[which],
+            cfg.describe(),
+            stream::describe(recs, &names)
+        )
+    };
+    ch.desc(describe);
+    let repo = refs::repository(&env.refs);
+    let header = refs::header(&env.refs);
+    let bytes = match write_cram(&repo, &header, recs, &cfg) {
+        Ok(b) => b,
+        Err(_) => {
+            ch.tag("write failed (not judged here, see C07)");
+            ch.obs("write-failed");
+            return Ok(());
+        }
+    };
+    let mut tmp = tempfile::Builder::new().prefix("c19-").suffix(".cram").tempfile().expect("harness: temp file");
+    tmp.write_all(&bytes).expect("harness: write temp file");
+    tmp.flush().expect("harness: flush temp file");
+    let path = tmp.path().to_path_buf();
+    let w = match walk::walk(&bytes) {
+        Ok(w) => w,
+        Err(e) => return Err(Violation::new(format!("op=walk what={}", e.what.replace(' ', "_")), describe(), "valid file", e.detail)),
+    };
+    let mut boundaries = vec![0usize];
+    for c in &w.containers {
+        boundaries.push(boundaries.last().unwrap() + c.n_records as usize);
+    }
+    let scan: Vec<Rec> = match gcram::io::read_cram(&bytes, &repo) {
+        Ok((_, v)) => v,
+        Err(_) => {
+            ch.tag("scan failed (not judged here, see C07)");
+            ch.obs("scan-failed");
+            return Ok(());
+        }
+    };
+    let index = match vmc::catch(|| cram::fs::index(&path)) {
+        Ok(Ok(i)) => i,
+        Ok(Err(e)) => return Err(Violation::new("op=fs::index outcome=error (sequence harness)", describe(), "Ok(index)", format!("Err({e})"))),
+        Err((m, f)) => return Err(Violation::new(format!("op=fs::index outcome=panic msg={} (sequence harness)", vmc::normalise_msg(&m)), describe(), "Ok(index)", format!("panic: {m} in {f}"))),
+    };
+
+    enum Rd {
+        Indexed(cram::io::IndexedReader<File>),
+        Plain(cram::io::Reader<File>),
+    }
+    let file = File::open(&path).expect("harness: reopen");
+    let mut rd = if indexed {
+        Rd::Indexed(
+            cram::io::indexed_reader::Builder::default()
+                .set_reference_sequence_repository(repo.clone())
+                .set_index(index.clone())
+                .build_from_reader(file)
+                .expect("harness: indexed reader"),
+        )
+    } else {
+        Rd::Plain(cram::io::reader::Builder::default().set_reference_sequence_repository(repo.clone()).build_from_reader(file))
+    };
+    let hdr = match &mut rd {
+        Rd::Indexed(r) => vmc::catch(|| r.read_header()),
+        Rd::Plain(r) => vmc::catch(|| r.read_header()),
+    };
+    let hdr = match hdr {
+        Ok(Ok(h)) => h,
+        other => return Err(Violation::new("op=sequence step=read_header outcome=failed", describe(), "Ok(header)", format!("{:?}", other.map(|r| r.map(|_| ()))))),
+    };
+
+    let limit = scan.len() * 4 + 16;
+    let mut log: Vec<(usize, usize)> = Vec::new();
+    let mut prev = "read_header";
+    for (si, step) in steps.iter().enumerate() {
+        let viol = |outcome: &str, exp: String, obs: String| {
+            Err(Violation::new(
+                format!(
+                    "op=sequence reader={} step={} after={prev} outcome={outcome}",
+                    if indexed { "indexed" } else { "plain" },
+                    step.kind()
+                ),
+                format!("{} ; failing step {} = {:?}", describe(), si + 1, step),
+                exp,
+                obs,
+            ))
+        };
+        let collect = |it: &mut dyn Iterator<Item = std::io::Result<noodles_sam::alignment::RecordBuf>>, take: usize| -> std::io::Result<Vec<Rec>> {
+            let mut out = Vec::new();
+            for res in it {
+                out.push(Rec::from_record_buf(&res?));
+                if out.len() >= take {
+                    break;
+                }
+            }
+            Ok(out)
+        };
+        let got: Result<std::io::Result<Vec<Rec>>, (String, String)> = match *step {
+            Step::Q(rid, a, b) | Step::QTakeOne(rid, a, b) => {
+                let take = if matches!(step, Step::QTakeOne(..)) { 1 } else { limit };
+                let region = Reg::Closed(a, b).region(env.refs[rid].name);
+                match &mut rd {
+                    Rd::Indexed(r) => vmc::catch(|| collect(&mut r.query(&hdr, &region)?.records(), take)),
+                    Rd::Plain(r) => vmc::catch(|| collect(&mut r.query(&hdr, &index, &region)?.records(), take)),
+                }
+            }
+            Step::Whole(rid) => {
+                let region = Reg::Whole.region(env.refs[rid].name);
+                match &mut rd {
+                    Rd::Indexed(r) => vmc::catch(|| collect(&mut r.query(&hdr, &region)?.records(), limit)),
+                    Rd::Plain(r) => vmc::catch(|| collect(&mut r.query(&hdr, &index, &region)?.records(), limit)),
+                }
+            }
+            Step::Unmapped => match &mut rd {
+                Rd::Indexed(r) => vmc::catch(|| collect(&mut r.query_unmapped(&hdr)?, limit)),
+                Rd::Plain(r) => vmc::catch(|| collect(&mut r.query_unmapped(&hdr, &index)?, limit)),
+            },
+            Step::Scan | Step::ScanTwo => {
+                let take = if *step == Step::ScanTwo { 2 } else { limit };
+                match &mut rd {
+                    Rd::Indexed(r) => vmc::catch(|| collect(&mut r.records(&hdr), take)),
+                    Rd::Plain(r) => vmc::catch(|| collect(&mut r.records(&hdr), take)),
+                }
+            }
+        };
+        // Sequential reading is not part of C19's statement (indexing and region queries): these steps only
+        // perturb the reader's state between queries; what they return is recorded, not judged.
+        if matches!(step, Step::Scan | Step::ScanTwo) {
+            match &got {
+                Ok(Ok(v)) => log.push((si, v.len())),
+                Ok(Err(_)) => {
+                    ch.tag("sequential step after the end of the stream returned Err (recorded, not judged)");
+                    log.push((si, usize::MAX));
+                }
+                Err((m, f)) => return viol(&format!("panic:{}", vmc::normalise_msg(m)), "no panic".into(), format!("panic: {m} in {f}")),
+            }
+            prev = step.kind();
+            continue;
+        }
+        let got = match got {
+            Ok(Ok(v)) => v,
+            Ok(Err(e)) => return viol(&format!("error:{}", vmc::normalise_msg(&e.to_string())), "Ok(records)".into(), format!("Err({e})")),
+            Err((m, f)) => return viol(&format!("panic:{}", vmc::normalise_msg(&m)), "Ok(records)".into(), format!("panic: {m} in {f}")),
+        };
+        let show = |v: &[Rec]| v.iter().map(|r| String::from_utf8_lossy(r.name.as_deref().unwrap_or(b"*")).into_owned()).collect::<Vec<_>>().join(",");
+        match *step {
+            Step::Q(rid, a, b) => {
+                if let Err((o, d)) = judge_region(&scan, rid, a, b, &got, false) {
+                    return viol(&o, format!("filter(scan) for {}:{a}-{b}", env.refs[rid].name), format!("[{}] ({d})", show(&got)));
+                }
+            }
+            Step::QTakeOne(rid, a, b) => {
+                if let Err((o, d)) = judge_region(&scan, rid, a, b, &got, true) {
+                    return viol(&o, format!("first record of filter(scan) for {}:{a}-{b}", env.refs[rid].name), format!("[{}] ({d})", show(&got)));
+                }
+            }
+            Step::Whole(rid) => {
+                if let Err((o, d)) = judge_region(&scan, rid, 1, usize::MAX, &got, false) {
+                    return viol(&o, format!("filter(scan) for {}", env.refs[rid].name), format!("[{}] ({d})", show(&got)));
+                }
+            }
+            Step::Unmapped => {
+                // every unplaced record, in order, each once; placed unmapped reads may appear (the
+                // statement does not say whether they belong to "unmapped"); nothing mapped
+                let mut cursor = 0usize;
+                let mut matched = vec![false; scan.len()];
+                for g in &got {
+                    match (cursor..scan.len()).find(|&k| &scan[k] == g) {
+                        Some(k) => {
+                            if !scan[k].is_unmapped() {
+                                return viol("extra:mapped-record", "unmapped records only".into(), format!("[{}]", show(&got)));
+                            }
+                            matched[k] = true;
+                            cursor = k + 1;
+                        }
+                        None => return viol("duplicate-or-out-of-order", "each unplaced record once, in file order".into(), format!("[{}]", show(&got))),
+                    }
+                }
+                if (0..scan.len()).any(|k| scan[k].rid.is_none() && scan[k].is_unmapped() && !matched[k]) {
+                    return viol("missing-record", "every unplaced record".into(), format!("[{}]", show(&got)));
+                }
+            }
+            Step::Scan | Step::ScanTwo => {
+                // sequential reading continues at a container boundary: the answer is a run of the scan
+                // that starts at one (at record 0 when nothing was read before) and, for a full scan,
+                // goes to the end
+                let ok = boundaries.iter().any(|&b0| {
+                    if si == 0 && b0 != 0 {
+                        return false;
+                    }
+                    let rest = &scan[b0.min(scan.len())..];
+                    if *step == Step::Scan { rest == &got[..] } else { got.len() == rest.len().min(2) && rest[..got.len()] == got[..] }
+                });
+                if !ok {
+                    return viol(
+                        "not-a-run-of-the-scan-from-a-container-boundary",
+                        format!("scan[b..] for a container boundary b in {boundaries:?}{}", if si == 0 { " (b = 0: nothing was read before)" } else { "" }),
+                        format!("[{}]", show(&got)),
+                    );
+                }
+            }
+        }
+        log.push((si, got.len()));
+        prev = step.kind();
+    }
+    ch.steps(steps.len() as u64);
+    ch.obs_hash((&log, which, layout));
+    ch.tag("every step of the sequence answered as on a fresh reader");
+    Ok(())
+}
+
 fn main() {
     vmc::run("C19", "model_checking", |ctx| {
         ctx.rule(
@@ -510,10 +821,12 @@ fn main() {
         if ctx.quick() {
             let env = Env { refs: refs.clone(), complete_up_to: 24, devs: DevSet::GEOMETRY };
             ctx.harness(Config::new("layouts_regions_k1", 1), |ch| body(ch, &env, &[0, 1, 2, 3], &LAYOUTS));
+            ctx.harness(Config::new("reader_sequences", 0), |ch| body_sequences(ch, &env, &[1, 3]));
         } else {
             let env = Env { refs: refs.clone(), complete_up_to: 60, devs: DevSet::GEOMETRY };
             ctx.harness(Config::new("layouts_regions_k1_complete60", 1), |ch| body(ch, &env, &[0, 1, 2, 3], &LAYOUTS));
             let env2 = Env { refs: refs.clone(), complete_up_to: 24, devs: DevSet::GEOMETRY };
+            ctx.harness(Config::new("reader_sequences", 0), |ch| body_sequences(ch, &env, &[0, 1, 2, 3]));
             ctx.harness(Config::new("layouts_regions_k2_multi", 2), |ch| body(ch, &env2, &[1], &[None, Some(2)]));
             ctx.harness(Config::new("layouts_regions_k2_single", 2), |ch| body(ch, &env2, &[0], &[Some(1), Some(3)]));
         }
